@@ -101,7 +101,8 @@ def run_both(progs, nproc=4):
 UN = ["-", "_", "|", "+/", "*/", "|/", "&/", "+\\", "*\\", "|\\", "&\\", "{x*2}'", "{x+1}'", "#"]
 POST = ["@0", "@1"]
 PRE2 = ["2#", "1_", "(-1)#"]
-BIN = ["+", "-", "*", "%", "<", ">", "=", "|", "&", ","]
+BIN = ["+", "-", "*", "<", ">", "=", "|", "&", ","]
+DIVS = ["%2", "%0.5", "%4"]        # divisors are non-zero literals: :undefined is not part of the numeric core
 ATOMS = ["a", "b", "2", "0.5", "3"]
 # reals exactly representable in binary32, so that storing a list as float32 loses nothing
 BIND = {
@@ -122,14 +123,14 @@ def rand_prog(rng, depth):
     if r < 0.35:
         return rng.choice(UN) + w(rand_prog(rng, depth - 1))
     if r < 0.42:
-        return w(rand_prog(rng, depth - 1)) + rng.choice(POST)
+        return w(rand_prog(rng, depth - 1)) + rng.choice(POST + DIVS)
     if r < 0.5:
         return rng.choice(PRE2) + w(rand_prog(rng, depth - 1))
     return w(rand_prog(rng, depth - 1)) + rng.choice(BIN) + w(rand_prog(rng, depth - 1))
 
 
 def all_depth1():
-    out = [u + a for u in UN for a in ATOMS[:2]] + [a + p for p in POST for a in ATOMS[:2]] + [p + a for p in PRE2 for a in ATOMS[:2]]
+    out = [u + a for u in UN for a in ATOMS[:2]] + [a + p for p in POST + DIVS for a in ATOMS[:2]] + [p + a for p in PRE2 for a in ATOMS[:2]]
     out += [x + o + y for o in BIN for x in ATOMS for y in ATOMS if x in "ab" or y in "ab"]
     return out
 
@@ -268,7 +269,12 @@ def check_differential(chk, rng, tier):
         if prog[2] not in seen:
             seen.add(prog[2])
             chk.count("distinct_nontrivial")
-        why = compare_vals(parse_sx(a[1]), parse_sx(b[1]))
+        va, vb = parse_sx(a[1]), parse_sx(b[1])
+        why = compare_vals(va, vb)
+        if why == "shape" and "\\" in prog[2] and isinstance(va, list) and va[0] == "l" and len(va) == 2 and compare_vals(va[1], vb) is None:
+            chk.count("scan_of_0d_tensor")
+            chk.finding("C08-torch-scan-0d", "scan of a 0-d tensor", {"program": prog, "numpy": a, "torch": b})
+            continue
         if why is None:
             t = compare_text(a[2], b[2])
             if t == "same":
